@@ -83,16 +83,36 @@ func unpadCase(c *ev.Case) {
 	c.Logf("%s(data(%d)=%s [%s], b=%d) -> (%s, err=%v); reference: %s", name, len(orig), hx(orig), how, b, hx(got), err, ref.class)
 	c.Add("unpad/"+ref.class, 1)
 	c.Max("unpad_max_block_size", int64(b))
+	switch {
+	case b >= 1 && b <= 16:
+		c.Add("unpad_block_1..16", 1)
+	case b >= 17 && b <= 255:
+		c.Add("unpad_block_17..255", 1)
+		if ref.class == "pad-bytes" && int(orig[len(orig)-1]) > 16 {
+			c.Add("unpad_block_17..255_long_pad_corrupted", 1)
+		}
+	case b > 255:
+		c.Add("unpad_block_above_255", 1)
+	}
 	if !ref.ok {
 		if err == nil {
 			c.Failf("unpad-accepts-bad", "%s(data, %d) returned %d bytes and nil error for data that is not a correctly padded multiple of the block size (%s): data(%d)=%s", name, b, len(got), ref.class, len(orig), hx(orig))
 			return
 		}
 	} else {
+		if ref.n > 0 && b >= 1 && b <= 255 {
+			c.Add("unpad/"+ref.class+"/nonempty-d-block-1..255", 1)
+		}
 		if err != nil && (b < 1 || b > 255) {
 			// the statement promises the round trip for block sizes 1..255 only; a
 			// library that refuses other block sizes outright is within it
 			c.Add("unpad_valid_padding_refused_for_block_size_outside_1..255", 1)
+		} else if err != nil && ref.n == 0 {
+			// data that is nothing but one block of padding is PKCS7Padding of the
+			// EMPTY string, which PKCS7Padding itself refuses; the statement promises
+			// the inverse for non-empty d only (the CBC path, where the empty
+			// plaintext is in scope, is decided in cbc / cbc-hostile)
+			c.Add("unpad_padding_only_input_refused", 1)
 		} else if err != nil {
 			c.Failf("unpad-rejects-valid", "%s(data, %d) returned error %q for correctly padded data (pad %d): data(%d)=%s", name, b, err, len(orig)-ref.n, len(orig), hx(orig))
 			return
